@@ -520,7 +520,7 @@ impl Check for C01 {
         LANGS.to_vec()
     }
     fn floors(&self) -> Vec<(&'static str, f64)> {
-        vec![("pos:inside_token", 0.10), ("pos:lookahead", 0.05), ("repaired_after_error", 0.08), ("external_scanner", 0.20), ("multi_edit_before_reparse", 0.10), ("multibyte_text", 0.05), ("with_ranges", 0.03), ("chunked", 0.20), ("#reparse_valid", 0.30)]
+        vec![("pos:inside_token", 0.10), ("pos:lookahead", 0.05), ("repaired_after_error", 0.08), ("external_scanner", 0.20), ("multi_edit_before_reparse", 0.10), ("multibyte_text", 0.05), ("with_ranges", 0.03), ("chunked", 0.20), ("#reparse_valid", 0.15)]
     }
     fn run_case(&self, ctx: &mut Ctx, t: &mut Tape) {
         run_session(ctx, t, Mode::C01)
